@@ -49,6 +49,7 @@ type VC struct {
 	termFacts map[string]bool
 	inputs   []string // names of input constants (for models)
 	sreg     *sortReg
+	funRet   map[string]string
 }
 
 func newVC(bv bool) *VC {
@@ -79,6 +80,10 @@ func (vc *VC) declConst(name, sort string) {
 }
 
 func (vc *VC) declFun(name string, args []string, ret string) {
+	if vc.funRet == nil {
+		vc.funRet = map[string]string{}
+	}
+	vc.funRet[name] = ret
 	vc.declRaw("fun:"+name, fmt.Sprintf("(declare-fun %s (%s) %s)", name, strings.Join(args, " "), ret))
 }
 
